@@ -146,6 +146,7 @@ inline bool wait_done(std::vector<Worker*>& ws, uint64_t timeout_us, const char*
 // pointers are mapped to the small ids registered by the harness (0 = null, -1 = not registered).  Times are logged
 // relative to t0().  An event raised inside a VT_ATOMIC bracket is appended while the bracket holds the sink lock.
 extern "C" int photon_verif_sleepq_dump(const void* sq, const void** th, uint64_t* ts, int* idx, int max);
+extern "C" int photon_verif_thread_sleepq_idx(const void* th);
 inline uint64_t& t0() { static uint64_t t = 0; return t; }
 inline int& in_bracket() { static thread_local int b = 0; return b; }
 inline std::atomic<bool>& hooks_logged() { static std::atomic<bool> b{false}; return b; }
@@ -195,7 +196,7 @@ inline void hook_fn(uint32_t id, const void* obj, uint64_t a, uint64_t b, uint64
         if (n > 64) return;       // too large to log; not an error
         int qid = T(obj);
         if (qid < 0) { static std::atomic<int> next{300}; qid = next++; reg().set(obj, qid); }
-        std::string j = "{\"e\":\"hHeap\",\"q\":" + std::to_string(qid) + ",\"op\":" + std::to_string((int)a) + ",\"t\":" + std::to_string(T((void*)b)) + ",\"n\":" + std::to_string((int)c) + ",\"a\":[";
+        std::string j = "{\"e\":\"hHeap\",\"q\":" + std::to_string(qid) + ",\"op\":" + std::to_string((int)a) + ",\"t\":" + std::to_string(T((void*)b)) + ",\"tidx\":" + std::to_string(photon_verif_thread_sleepq_idx((void*)b)) + ",\"n\":" + std::to_string((int)c) + ",\"a\":[";
         for (int i = 0; i < n; i++) { if (i) j += ','; j += '['; j += std::to_string(T(th[i])); j += ','; j += std::to_string((long long)rel(ts[i])); j += ','; j += std::to_string(idx[i]); j += ']'; }
         j += "]}\n";
         hook_emit(j); return; }
